@@ -379,6 +379,54 @@ theorem inv_step {g : Ghost} {s : St} (hI : Inv g s) (op : Op) (hok : OpOk g op)
       obtain ⟨h1, h2, h3⟩ := hregcase (by simp)
       exact ⟨h1, h2, fun _ => h3⟩
 
+/-- `del`/`del_root` of a registered object with the collector running: the object and everything registered that its
+    destructor deletes are finalised exactly once, now, and leave the registry -/
+theorem gcRem_registered {g : Ghost} {s : St} (hI : Inv g s) (b : Addr) (hrun : s.running = true) (hb : b ∈ s.regAddrs) :
+    Once b (gcRem (finalise (fuelFor s) Cfg.current) Cfg.current s b).log ∧
+    b ∉ (gcRem (finalise (fuelFor s) Cfg.current) Cfg.current s b).regAddrs ∧
+    ∀ x ∈ s.ownsOf b, x ∈ s.regAddrs →
+      Once x (gcRem (finalise (fuelFor s) Cfg.current) Cfg.current s b).log ∧
+      x ∉ (gcRem (finalise (fuelFor s) Cfg.current) Cfg.current s b).regAddrs := by
+  have hp : s.pending.contains (some b) = false := by rw [hI.pending]; rfl
+  have hg := isReg_of_mem_regAddrs hb
+  generalize hs1 : ({ s with reg := eraseReg b s.reg } : St) = s1
+  have he : Eff s s1 [b] [] := by
+    rw [← hs1]
+    refine ⟨by simp [eraseReg_eq], ?_, rfl, rfl, by simp⟩
+    show s.pending = strikeAll [b] s.pending
+    rw [hI.pending]; rfl
+  have hlt : mu s1 < fuelFor s := Nat.lt_of_le_of_lt he.mu_le (mu_lt_fuelFor _)
+  obtain ⟨D, E, heff, hgood, htr, _, hcompl⟩ := finalise_spec (fuelFor s) s1 b (he.disj hI.disj) hlt
+  have hbD : b ∉ D := fun hd => ((he.tracked b).1 (htr b hd)).2 (List.mem_singleton.2 rfl)
+  have hres : gcRem (finalise (fuelFor s) Cfg.current) Cfg.current s b =
+      { finalise (fuelFor s) Cfg.current s1 b with
+        mitems := threshold (finalise (fuelFor s) Cfg.current s1 b).reg.length } := by
+    rw [← hs1]
+    unfold gcRem gcRemPtr
+    simp only [hrun, hp, hg, Bool.not_true, Bool.false_eq_true, if_false, if_true]
+  rw [hres]
+  have hall := he.trans heff
+  have hgoodb := hgood.bracket hbD
+  have hmemreg : ∀ a, a ∈ (finalise (fuelFor s) Cfg.current s1 b).regAddrs ↔ a ∈ s.regAddrs ∧ a ∉ [b] ++ D := by
+    intro a; unfold St.regAddrs; rw [hall.reg]; exact mem_regWithout_addrs
+  have honce : ∀ d ∈ b :: D, d ∈ s.regAddrs → Once d (finalise (fuelFor s) Cfg.current s1 b).log := by
+    intro d hd hdreg
+    rw [hall.log]
+    exact Once.append_left (hI.reg d hdreg).2.2.2 (by simpa using hgoodb.once d hd)
+  have hown : s1.ownsOf b = s.ownsOf b := St.ownsOf_congr he.owns b
+  have hrun1 : s1.running = true := by rw [he.running]; exact hrun
+  refine ⟨honce b List.mem_cons_self hb, ?_, ?_⟩
+  · intro hc
+    exact ((hmemreg b).1 hc).2 (by simp)
+  · intro x hx hxreg
+    by_cases hxb : x = b
+    · subst hxb
+      exact ⟨honce x List.mem_cons_self hb, fun hc => ((hmemreg x).1 hc).2 (by simp)⟩
+    · have hxD : x ∈ D := by
+        apply hcompl hrun1 x (by rw [hown]; exact hx)
+        exact (he.tracked x).2 ⟨Or.inr hxreg, by simpa using hxb⟩
+      exact ⟨honce x (List.mem_cons_of_mem _ hxD) hxreg, fun hc => ((hmemreg x).1 hc).2 (by simp [hxD])⟩
+
 /-- the invariant holds after every well-formed history -/
 theorem inv_run : ∀ (ops : List Op) (g : Ghost) (s : St), Inv g s → WF g s ops →
     Inv (grun g s ops) (run Cfg.current s ops) := by
